@@ -14,6 +14,10 @@ TRUSTED_BASE = [
 ]
 
 PLAN = {
+    "C10": {
+        "level": "proof",
+        "contracts": ["contracts.tree"],
+    },
     "C09": {
         "level": "proof",
         "contracts": ["contracts.tree_value"],
